@@ -1151,6 +1151,9 @@ func replayMain(sp *pktgen.Space, file string) {
 		fmt.Printf("REPLAY-RESULT not reproduced in %d signings (clause=%s key=%q)\n", sweepTries, r.Clause, r.Key)
 		os.Exit(0)
 	}
+	if strings.HasPrefix(r.Replay.Case, heldPrefix) {
+		replayHeld(r.Replay.Case, r.Clause, r.Key)
+	}
 	report.Fatal("replay %s: case %q is not in the enumerated space", file, r.Replay.Case)
 }
 
@@ -1353,9 +1356,16 @@ func main() {
 	}
 
 	// the outer-length boundary sweep runs first: it is small and must not fall to the time cap
+	tPass := time.Now()
+	passWall := map[string]float64{}
+	lap := func(name string) {
+		passWall[name] = float64(time.Since(tPass).Milliseconds()) / 1000
+		tPass = time.Now()
+	}
 	sweep := pktgen.Sweep(pktgen.Bases())
 	_, sweepDone := enum.Range(int64(len(sweep)), deadline, func(i int64) { runSweep(i, sweep[i], thorough) })
 
+	lap("outer_length_sweep")
 	// ECDSA repetition pass (small, runs before the big enumeration)
 	type repCase struct {
 		label string
@@ -1381,8 +1391,18 @@ func main() {
 	}
 	_, repDone := enum.Range(int64(len(reps)), deadline, func(i int64) { runEcdsaRepeat(i, reps[i].label, reps[i].d, nrep, thorough) })
 
+	lap("ecdsa_repetition")
+	// held packets (small, runs before the big enumeration): see held.go
+	heldDeadline := deadline
+	if m := time.Now().Add(45 * time.Second); heldDeadline.Before(m) {
+		heldDeadline = m // never lost to a cap spent by the passes before it
+	}
+	heldN, heldDone, heldComplete := runHeld(thorough, heldDeadline)
+	lap("held_packets")
+
 	done, complete := enum.Range(int64(len(cases)), deadline, func(i int64) { evalCase(sp, i, cases[i], thorough) })
-	complete = complete && repDone
+	complete = complete && repDone && heldComplete
+	lap("enumeration")
 	complete = complete && sweepDone
 	flushPending()
 
@@ -1428,6 +1448,8 @@ func main() {
 			"cases_with_at_least_one_such_build":                st.sweepCasesCrossed,
 			"rule":                                              "every base x every ECDSA signer mode x payload size such that the estimated outer length is each target; each case signed until 3 different signature lengths were seen or 24 builds",
 		},
+		"held_packets":         heldCoverage(heldN, heldDone),
+		"wall_seconds_by_pass": passWall,
 		"stale_digest_name_without_parameters_rejected_by_decoder_(allowed)": st.mayReject,
 		"cpu_seconds_by_phase_and_class": map[string][3]float64{ // class: every-cut packets, quick-tier 2-deviation small packets, >400 B packets
 			"build": secs(st.nsBuild), "contiguous": secs(st.nsRt), "name": secs(st.nsName), "segmentation": secs(st.nsSeg)},
